@@ -258,3 +258,83 @@ pub fn run_read_vs_store(case: &Sexp) -> Sexp {
     }
     finish(&ctl, &res, su, 2)
 }
+
+/// (18 kind sched) a user holds the WRITE guard of an async derived value (`d.write()`, loaded,
+/// not loading) on thread 0 and modifies it; thread 1 awaits the value (kind 1: into_future,
+/// kind 2: by_ref, kind 0: ready()). Dropping the guard releases the lock and notifies.
+/// obs ((st v polls) writer_status hang)
+pub fn run_user_write(case: &Sexp) -> Sexp {
+    let kind = case.at(1).num();
+    let sched = case.at(2).nums();
+    let su = setup(false);
+    let ctl = Ctl::new(2, &[]);
+    let res = Arc::new(Mutex::new((0i64, 0i64, 0i64)));
+    {
+        let d = su.d.clone();
+        ctl.spawn(0, move |ctl, me| {
+            let mut g = d.write();
+            ctl.pause(me, "op");
+            *g = Some(Val { v: 7, stored: false });
+            drop(g);
+        });
+    }
+    {
+        let d = su.d.clone();
+        let res = Arc::clone(&res);
+        ctl.spawn(1, move |ctl, me| {
+            let mut fut: Pin<Box<dyn Future<Output = i64> + Send>> = match kind {
+                0 => {
+                    let d2 = d.clone();
+                    Box::pin(async move {
+                        d2.ready().await;
+                        d2.with_untracked(|v| v.as_ref().map(|x| x.v).unwrap_or(-2))
+                    })
+                }
+                1 => {
+                    let f = std::future::IntoFuture::into_future(d.clone());
+                    Box::pin(async move { f.await.v })
+                }
+                _ => {
+                    let d2 = d.clone();
+                    Box::pin(async move { d2.by_ref().await.v })
+                }
+            };
+            let (flag, waker) = exec::flag();
+            let mut polls = 0;
+            loop {
+                polls += 1;
+                match exec::poll_boxed(&mut fut, &waker) {
+                    Poll::Ready(v) => {
+                        *res.lock().unwrap() = (1, v, polls);
+                        break;
+                    }
+                    Poll::Pending => {
+                        *res.lock().unwrap() = (0, 0, polls);
+                        loop {
+                            ctl.pause(me, "parked");
+                            if ctl.aborted() {
+                                return;
+                            }
+                            if flag.0.swap(false, SeqCst) {
+                                break;
+                            }
+                        }
+                    }
+                }
+            }
+        });
+    }
+    ctl.wait_started();
+    for t in &sched {
+        ctl.step(*t as usize);
+    }
+    let blocked = ctl.settle();
+    let hang = ctl.hang.load(SeqCst) || blocked.iter().any(|b| *b);
+    let wst = ctl.status(0, &blocked);
+    ctl.finish();
+    let (st, v, p) = *res.lock().unwrap();
+    if hang {
+        std::mem::forget(su);
+    }
+    Lst(vec![Lst(vec![Num(st), Num(v), Num(p)]), Num(wst), Num(hang as i64)])
+}
